@@ -546,9 +546,9 @@ class ListSpace(Space):
     def valid(self, r):
         if self.enum:
             return r.choice(self.enum)
-        # never the empty list: an empty value of a list type overflows a heap buffer in ListDatatypeValidator::getCanonicalRepresentation
-        # when a PSVI handler is installed (finding reported separately; the pinned witness in c16.py keeps reproducing it)
-        n = max(1, r.randint(self.minn, self.maxn if self.maxn is not None else self.minn + 4))
+        n = r.randint(self.minn, self.maxn if self.maxn is not None else self.minn + 4)
+        if n == 0:
+            return ''
         items = []
         for _ in range(n):
             for _try in range(6):
@@ -1857,7 +1857,7 @@ def mutate(root, pool, r, op):
         n.kids = [v]
     elif op == 'garbage-text' and with_text:
         n = r.choice(with_text)
-        n.kids = [r.choice(['???', '', ' ', '-', '99999999999999999999', 'true', '2001-02-30'] if getattr(n.typ, 'kind', '') != 'list' else ['???', '- -', '1 x'])]
+        n.kids = [r.choice(['???', '', ' ', '-', '99999999999999999999', 'true', '2001-02-30', '- -', '1 x'])]
     elif op == 'drop-attr' and with_attrs:
         n = r.choice(with_attrs)
         c = [i for i, a in enumerate(n.attrs) if a[0] != XSI]
@@ -1939,9 +1939,7 @@ class Pool:
         self.ents = []          # (sysid, bytes) served by the driver's resolver
         self.grammars = []      # (kind, sysid, bytes) handed to loadGrammar in this order
         self.tags = set()
-        # list types and PSVI do not go together on this tree (ListDatatypeValidator::getCanonicalRepresentation crashes on empty values and on
-        # items without canonical form): a pool either has list types or is validated with a PSVI handler
-        self.allow_lists = r.random() < 0.5
+        self.allow_lists = True
 
     # -- namespaces / prefixes used in instances
     def ns_prefixes(self):
@@ -2323,16 +2321,16 @@ def make_pool(r, cover=None, kind=None, n_inst=(20, 60)):
             x = schema_instance(pool, r)
             if x:
                 insts.append(x)
-    # configuration
+    # configuration.  PSVI is recorded only on unlocked pools: a locked pool hands every parser an empty XSModel (all PSVI type definitions
+    # null, and a defaulted attribute of a user-defined simple type is a null dereference in buildAttList — see notes/C16.md, F6)
+    opts['lock'] = r.choice([0, 0, 1])
+    opts['psvi'] = 1 if opts['lock'] == 0 else 0
     if kind == 'xsd':
-        # PSVI is only observable with the IG scanner on an unlocked pool whose XSModel nobody asked for before (see notes/C16.md:
-        # SGXMLScanner never fetches the model for cached grammars; a locked pool hands every parser an empty model)
         opts['scanner'] = r.choice(['IG', 'IG', 'SG'])
-        opts['lock'] = r.choice([0, 0, 1])
-        opts['psvi'] = 1 if (opts['lock'] == 0 and opts['scanner'] == 'IG' and not pool.allow_lists) else 0
+    elif kind == 'mixed':
+        opts.update(scanner='IG', schema=1)
     else:
-        # a pool holding a DTD grammar cannot be locked or asked for its XSModel under UBSan (bad downcast in XSModel::XSModel, see notes)
-        opts.update(lock=0, xsmodel=0, psvi=0, scanner='IG' if kind == 'mixed' else r.choice(['IG', 'DG']), schema=1 if kind == 'mixed' else 0)
+        opts.update(scanner=r.choice(['IG', 'DG']), schema=0, psvi=0)
     opts['full'] = r.choice([0, 0, 1])
     opts['file'] = 1 if r.random() < 0.1 else 0
     return dict(kind=kind, grammars=pool.grammars, ents=pool.ents, instances=insts, opts=opts, tags=sorted(pool.tags), pool=pool)
